@@ -6,7 +6,10 @@ use std::io::Write;
 use std::path::PathBuf;
 use std::time::Instant;
 
-pub const VERIF_DIR: &str = "/verif";
+/// root for evidence/, replays/ and known_findings.json (MC_VERIF_DIR overrides, for scratch copies)
+pub fn verif_dir() -> String {
+    std::env::var("MC_VERIF_DIR").unwrap_or_else(|_| "/verif".to_string())
+}
 
 #[derive(Clone, Copy, PartialEq, Eq, Debug)]
 pub enum Tier {
@@ -195,7 +198,7 @@ pub struct KnownFinding {
 }
 
 pub fn load_known(prop: &str) -> Vec<KnownFinding> {
-    let path = format!("{}/known_findings.json", VERIF_DIR);
+    let path = format!("{}/known_findings.json", verif_dir());
     let Ok(text) = std::fs::read_to_string(&path) else {
         return vec![];
     };
@@ -282,7 +285,7 @@ pub fn finish(args: &Args, meta: &CheckMeta, out: &Outcome, start: Instant) -> i
     }
 
     let mut code = 0;
-    let replay_dir = format!("{}/replays/{}", VERIF_DIR, meta.prop);
+    let replay_dir = format!("{}/replays/{}", verif_dir(), meta.prop);
     for v in &new_violations {
         let _ = std::fs::create_dir_all(&replay_dir);
         let path = format!("{}/{}.json", replay_dir, sanitize(&v.key));
@@ -342,8 +345,8 @@ pub fn finish(args: &Args, meta: &CheckMeta, out: &Outcome, start: Instant) -> i
         "wall_s": start.elapsed().as_secs_f64(),
         "violations": new_violations.len(),
     });
-    let _ = std::fs::create_dir_all(format!("{}/evidence", VERIF_DIR));
-    let path = format!("{}/evidence/{}.json", VERIF_DIR, meta.prop);
+    let _ = std::fs::create_dir_all(format!("{}/evidence", verif_dir()));
+    let path = format!("{}/evidence/{}.json", verif_dir(), meta.prop);
     if let Err(e) = std::fs::write(&path, serde_json::to_string_pretty(&ev).unwrap()) {
         eprintln!("machinery error: cannot write {}: {}", path, e);
         if code == 0 {
